@@ -175,6 +175,23 @@ def c17_case(ctx: Ctx, case: dict):
             ctx.broke("correspondence", "model-inertness(components)", json.dumps({"text": base, "edited": edited}))
 
 
+ANNOT_DESCS = ["Faraday's constant", "scaled by \\xi", "rate \\upsilon", "C:\\temp\\file", "\\Nu mber", "tab\\there", "a \\ b", "50 \\% open",
+               "(see [3])", "# not a comment", "µ-opioid", "1/0", "lambda: 0", "\\U0001 x", "\\u12 y", "\\x4", "\\777 z", "new\\nline", "{x}", "%s %d"]
+ANNOT_UNITS = ["mV", "1", "uA/uF", "per_ms", "\\Omega", "mS/cm2", "%", "\\xB5M", "mol per litre", "°C"]
+
+
+def annot_edit(m: gen.GModel, desc: str, unit: str, rng: random.Random):
+    """the same text with a unit / description annotation on one declaration"""
+    bl = [(k, c, list(lines)) for k, c, lines in m.blocks()]
+    cands = [(i, j) for i, b in enumerate(bl) if b[0] in ("states", "parameters") for j, ln in enumerate(b[2]) if "ScalarParam" not in ln]
+    if not cands:
+        return None
+    i, j = rng.choice(cands)
+    nme, val = bl[i][2][j].split("=", 1)
+    bl[i][2][j] = f'{nme}=ScalarParam({val}, unit="{unit}", description="{desc}")'
+    return "\n".join(gen.render_block(k, c, list(lines)) for k, c, lines in bl) + "\n"
+
+
 def c17_run(ctx: Ctx):
     n = ctx.n(16, 400)
     for k in range(n):
@@ -182,6 +199,13 @@ def c17_run(ctx: Ctx):
         cfg.expr = gen.ExprCfg(p_cond=0.08, p_ccond=0.0, p_mod=0.0, p_floor=0.0, p_relnum=0.0)
         m = gen.gen_model(ctx.rng, cfg)
         base, eds = edits(ctx.rng, m, 8)
+        # annotation texts are free text: every special description / unit text gets its turn
+        for r_ in range(2):
+            d_ = ANNOT_DESCS[(2 * k + r_) % len(ANNOT_DESCS)]
+            u_ = ANNOT_UNITS[(2 * k + r_) % len(ANNOT_UNITS)]
+            t_ = annot_edit(m, d_, u_, ctx.rng)
+            if t_ is not None:
+                eds.append((f"annotation unit={u_!r} description={d_!r}", "annotation", t_))
         for desc, cls, t in eds:
             c17_case(ctx, {"text": base, "edited": t, "cls": cls, "desc": desc})
         if ctx.elapsed() > (1500 if ctx.thorough else 150):
